@@ -6,7 +6,8 @@
    spec_pw/spec_ph = published plane dimensions, spec_stride = pad_up pw align,
    plane_bytes = stride * ph, spec_off = documented plane offsets, spec_total = sum of plane_bytes. *)
 From Coq Require Import List ZArith.
-From LJT Require Import lib.Sweep lib.PadLemmas gen.GenSubsamp model.Geometry model.YuvCopy model.RawData proofs.GeometryProofs proofs.YuvCopyProofs proofs.RawDataProofs.
+From LJT Require Import lib.Sweep lib.PadLemmas gen.GenSubsamp model.Geometry model.YuvCopy model.RawData model.JCopy proofs.GeometryProofs proofs.YuvCopyProofs proofs.RawDataProofs
+  proofs.EdgeEventsProofs proofs.JCopyProofs.
 Import ListNotations.
 Local Open Scope Z_scope.
 
@@ -132,6 +133,17 @@ Print Assumptions C20_raw_protocols.
 Theorem C20_cfp_edge_replication : cfp_edge_statement.
 Proof. exact cfp_edge_proof. Qed.
 Print Assumptions C20_cfp_edge_replication.
+
+(* ... at event level: for every image, level, component and iteration, the program-order event list of the iteration (copies,
+   column replication, row replication, the codec's reads) passes the initialised-cell checker of model/RawData.v *)
+Theorem C20_cfp_events_checked : cfp_events_statement.
+Proof. exact cfp_events_proof. Qed.
+Print Assumptions C20_cfp_events_checked.
+
+(* jutils.c jcopy_sample_rows (transcribed): rows source_row+j -> dest_row+j, j < num_rows, num_cols bytes each *)
+Theorem C20_jcopy_sample_rows : jcopy_statement.
+Proof. exact jcopy_proof. Qed.
+Print Assumptions C20_jcopy_sample_rows.
 
 (* scratch buffers of tj3EncodeYUVPlanes8 / tj3DecodeYUVPlanes8: rows inside the malloc'ed block at any alignment slack,
    wide enough, no unsigned-int wrap in the size computations *)
